@@ -16,7 +16,8 @@ from harness import common as C
 RULE = ('transform cases: every shape in {1..9}^2 (all parity pairs, square and not) several times plus a few up to 24x17; Q half '
         'from {1,2,3,1.5,2.37,0.8,(1.7,2.3),(2,1)} and half RANDOM REALS in [0.3,5] (scalar or per-axis, all digits random); output '
         'sizes 1..10 per axis (every parity, smaller and larger than the input); shift from {0,+-1,+-2.5,(1.5,-2.25),(0,1)} or random '
-        'reals in [-4,4]; direction fwd/inv; input dtype from {complex128, float64, complex64, float32, int64, bool}; config.precision '
+        'reals in [-4,4]; a systematic block of near-symmetric cases (square in/out, equal shifts, one Q, then exactly one per-axis '
+        'parameter made different); direction fwd/inv; input dtype from {complex128, float64, complex64, float32, int64, bool}; config.precision '
         '64 (85%) / 32 (15%); 40% of the cases pass Q / samples_out / shift as list, ndarray or scalar instead of tuples; methods mdft '
         'and czt both run on every case, on a FRESH executor (pure-function test against the Lean double sum) and on the shared '
         'executors (the stream is one long history: a difference is reduced to a short culprit history); FFT-route cases: focus/unfocus '
@@ -326,6 +327,28 @@ def transform_case(ctx_rng, shape, big=False):
     return c
 
 
+def symmetric_cases():
+    """near-symmetric situations: input and output square, equal shift components, one Q - and then exactly ONE of the four
+    per-axis parameters made different (a shortcut that treats the two axes alike when 'everything is symmetric' must test all four)"""
+    out = []
+    seed = 1000
+    for n in (3, 4):
+        for M in (n, 5):
+            for s_ in (0, 1.5):
+                for d in (-1, 1):
+                    base = {'shape': [n, n], 'Q': [1.7, 1.7], 'samples': [M, M], 'shift': [s_, s_], 'dir': d, 'dtype': 'complex128',
+                            'precision': 64}
+                    for key, val in ((None, None), ('Q', [1.7, 2.3]), ('Q', [2.3, 1.7]), ('shift', [s_, s_ + 1.25]),
+                                     ('samples', [M, M + 2]), ('shape', [n, n + 1])):
+                        c = {k: (list(v) if isinstance(v, list) else v) for k, v in base.items()}
+                        if key:
+                            c[key] = val
+                        seed += 1
+                        c['seed'] = seed
+                        out.append(c)
+    return out
+
+
 def case_args(c):
     Q = tuple(c['Q']) if isinstance(c['Q'], list) else c['Q']
     return tuple(c['shape']), Q, tuple(c['samples']), tuple(c['shift'])
@@ -379,6 +402,7 @@ def _transforms(ctx, ft, pr, config):
     for _ in range(nbig):
         shp = (int(ctx.rng.integers(10, 25)), int(ctx.rng.integers(10, 18)))
         cases.append(transform_case(ctx.rng, shp, big=True))
+    cases = symmetric_cases() + cases
     lines, meta = [], []
     for c in cases:
         (m, n), Q, (M, N), shift = case_args(c)
